@@ -387,6 +387,7 @@ void *qhashtbl_get(qhashtbl_t *tbl, const char *name, size_t *size, bool newmem)
             data = malloc(obj->size);
             if (data == NULL) {
                 errno = ENOMEM;
+                qhashtbl_unlock(tbl);
                 return NULL;
             }
             memcpy(data, obj->data, obj->size);
